@@ -77,7 +77,8 @@ def main():
         for c in checks:
             t0 = time.time()
             env = dict(os.environ, VERIF_REPO=wt)
-            r = subprocess.run(['/verif/check', c, '--tier', a.tier], stdout=subprocess.PIPE, stderr=subprocess.STDOUT, text=True, env=env, cwd='/verif')
+            root = os.path.dirname(os.path.dirname(os.path.abspath(__file__)))  # the /verif tree this script belongs to
+            r = subprocess.run([os.path.join(root, 'check'), c, '--tier', a.tier], stdout=subprocess.PIPE, stderr=subprocess.STDOUT, text=True, env=env, cwd=root)
             viol = [l for l in r.stdout.splitlines() if l.startswith('VIOLATION')]
             fails = [l for l in r.stdout.splitlines() if l.startswith('failure in') or l.startswith('ill-formed')]
             res['checks'][c] = {'rc': r.returncode, 'violations': len(viol), 'first': (fails[:2] + viol[:1]), 'wall_s': round(time.time() - t0, 1)}
